@@ -1,11 +1,20 @@
 import NetaddrVerif.Model.Proto
 import NetaddrVerif.Model.Eui
+import NetaddrVerif.Model.Eui2
 /-! Driver ops of property C08 (EUI text, constructor, word access, derived identifiers).
 
 Dialect token: a built-in class name (looked up in `Gen.macDialects` / `Gen.eui64Dialects`) or
 `D,<word_size>,<num_words>,<hex of word_sep>,<pad>,<U|L>` for a user subclass.
 The constructor ops run `Eui.ofAnyF` (= `Eui.ofAny`, Props/C08Ext.lean `ctor_faithful`).
-Errors are printed as `!<Err.tag>` (the exception class; the harness prints `common.errname`). -/
+Errors are printed as `!<Err.tag>` (the exception class; the harness prints `common.errname`).
+
+Audit round 2a ops (Model/Eui2.lean): `eui_valid ver arg` (valid_mac / valid_eui64), `eui_cmpw ver v
+operand` (the six operators against any operand), `eui_ctor arg version dialect` (the whole
+constructor), `eui_setvalue ver arg`, `eui_setdialect ver dialect`, `eui_getany` / `eui_setany`
+(every index / value kind), `eui_dobj ver v` (eui64() / modified_eui64() with their dialect).
+Argument token: `s:<hex>` str, decimal int, `E;ver;v;<dialect>` EUI object, `f;<int(x)>` finite
+float, `N` None, `B` bytes.  Dialect argument: `-` None, `J` an object that is no dialect class,
+else a dialect token.  A dialect is printed as `ws,nw,s:<hex sep>,pad,U|L`. -/
 namespace NV.Driver.C08
 open NV NV.Proto NV.Gen
 
@@ -36,6 +45,38 @@ def parseAddrArg (tok : String) : Option Eui.AddrArg :=
 
 def parseOptStr (tok : String) : Option (Option (List Char)) :=
   if tok == "-" then some none else (parseStr tok).map some
+
+def parseCtorArg (tok : String) : Option Eui.CtorArg :=
+  if tok == "N" then some .pyNone
+  else if tok == "B" then some .bytes
+  else match tok.splitOn ";" with
+    | ["E", ver, v, d] => do pure (.eui (← ver.toNat?) (← v.toNat?) (← parseDialect d))
+    | ["f", t] => (parseInt t).map .float
+    | _ => (parseAddrArg tok).map .addr
+
+def parseDialectArg (tok : String) : Option Eui.DialectArg :=
+  if tok == "-" then some .none else if tok == "J" then some .junk else (parseDialect tok).map .cls
+
+def showDialect (d : Dialect) : String :=
+  s!"{d.wordSize},{d.numWords},{showStr d.sep},{d.pad},{if d.upper then "U" else "L"}"
+
+def showObj (p : Nat × Nat × Dialect) : String := s!"{p.1}:{p.2.1}:{showDialect p.2.2}"
+
+def parseIdxArg (tok : String) : Option Eui.IdxArg :=
+  match tok.splitOn ";" with
+  | ["i", i] => (parseInt i).map .int
+  | ["s", a, b, c] => do pure (.slice (← parseOptInt a) (← parseOptInt b) (← parseOptInt c))
+  | ["O"] => some .other
+  | _ => none
+
+def parseValArg (tok : String) : Option Eui.ValArg :=
+  if tok == "O" then some .other else (parseInt tok).map .int
+
+def showItem : Eui.Item → String
+  | .word x => toString x
+  | .words xs => showNats xs
+
+def allOps : List Eui.CmpOp := [.eq, .ne, .lt, .le, .gt, .ge]
 
 def handle (op : String) (args : List String) : Option String :=
   match op, args with
@@ -90,6 +131,29 @@ def handle (op : String) (args : List String) : Option String :=
     let c := tupleCmp a b
     pure (" ".intercalate [showBool (c == .eq), showBool (c != .eq), showBool (c == .lt), showBool (c != .gt),
       showBool (c == .gt), showBool (c != .lt), if c == .eq then "T" else "-"])
+  | "eui_valid", [ver, arg] => do
+    let ver ← ver.toNat?
+    let a : Eui.ValidArg ← if arg == "O" then some .other else (parseStr arg).map .str
+    pure (showBool (if ver = 48 then Eui.validMac a else Eui.validEui64 a))
+  | "eui_cmpw", [ver, v, other] => do
+    let ver ← ver.toNat?; let v ← v.toNat?
+    let o : Eui.Operand ← match ← parseCtorArg other with
+      | .eui w x _ => some (.eui w x)
+      | a => some (.arg a)
+    pure (" ".intercalate (allOps.map (fun op => showR showBool (Eui.cmpWith op ver v o))))
+  | "eui_ctor", [arg, ver, dia] => do
+    pure (showR showObj (Eui.ctor (← parseCtorArg arg) (← parseOptInt ver) (← parseDialectArg dia)))
+  | "eui_setvalue", [ver, arg] => do
+    pure (showR showVV (Eui.setValueLive (← ver.toNat?) (← parseCtorArg arg)))
+  | "eui_setdialect", [ver, dia] => do
+    pure (showR showDialect (Eui.setDialectLive (← ver.toNat?) (← parseDialectArg dia)))
+  | "eui_getany", [d, v, idx] => do
+    pure (showR showItem (Eui.getItem (← v.toNat?) (← parseDialect d) (← parseIdxArg idx)))
+  | "eui_setany", [d, v, idx, val] => do
+    pure (showR toString (Eui.setItemAny (← v.toNat?) (← parseDialect d) (← parseIdxArg idx) (← parseValArg val)))
+  | "eui_dobj", [ver, v] => do
+    let ver ← ver.toNat?; let v ← v.toNat?
+    pure (showR showObj (Eui.eui64Obj ver v) ++ " " ++ showR showObj (Eui.modifiedEui64Obj ver v))
   | _, _ => none
 
 end NV.Driver.C08
